@@ -215,12 +215,34 @@ def rule_same_base(col, facts):
     isf = facts.fn(PF + "number::Number::is_fast_path")
     # every other comparison in is_fast_path is dominated by (mantissa_radix() == exponent_base()) true
     n = 0
+    # what has to hold is "is_fast_path() is true only if the two are equal": every path on which the result can be
+    # true carries the equality (the order of the pure `&&` operands does not matter)
+    from rules.core import enum_paths, bool_resolved_atoms, resolve_env
+    def _is_eq(e, p):
+        e = strip_casts(e)
+        return e[0] == "bin" and e[1] == "Eq" and p is True and {last_seg(x[1]) for x in expr_calls(e)} >= {"mantissa_radix", "exponent_base"}
+    by_paths = None
+    try:
+        rets = {i for i, b in enumerate(isf.blocks) if isf.live(i) and b["t"]["k"] == "return"}
+        by_paths = True
+        for _t, atoms0, env in enum_paths(isf, 0, rets, want_env=True):
+            atoms, feasible = bool_resolved_atoms(isf, atoms0, env)
+            if not feasible:
+                continue
+            r = env.get(0)
+            val = None if r is None else (r[1] if r[0] == "const" else strip_casts(resolve_env(r[1], env)))
+            can_be_true = not (val is False or val == ("k", False) or val == 0)
+            if can_be_true and not (any(_is_eq(e, p) for e, p in atoms) or (isinstance(val, tuple) and _is_eq(val, True))):
+                by_paths = False
+    except AnchorMissing:
+        by_paths = None
     for bb, c, a, d, t in isf.calls():
         cn = callee_name(c)
         if cn.endswith(("RawFloat::min_exponent_fast_path", "RawFloat::max_exponent_disguised_fast_path")):
             n += 1
             conds = path_conditions(isf, bb)
             ok = any(strip_casts(e)[0] == "bin" and strip_casts(e)[1] == "Eq" and p is True and {last_seg(x[1]) for x in expr_calls(e)} >= {"mantissa_radix", "exponent_base"} for _d, e, p in conds)
+            ok = ok or by_paths is True
             col.check(R, PF + "number::Number::try_fast_path", ok,
                       "the exact fast path (value * radix^exponent) is reached for formats whose exponent base differs from the mantissa radix: the equality is not tested at run time (hex floats would be scaled by 16^e instead of 2^e)", isf.loc(isf.blocks[bb]["ts"]))
     col.floor(R, "fast-path limit tests", n, 1)
